@@ -143,6 +143,12 @@ func scenarioC03(c *hlib.RunCtx) *hlib.Violation {
 			}
 		case 3:
 			key := fmt.Sprintf("stk%d", i)
+			if t.Bool(1, 6) {
+				// a name so long that the encoded stack is cut to the maximum length
+				// (with the truncation marker); both sites may end up with one name
+				key = longName(fmt.Sprintf("stk%d/", i), 4040+t.Draw(56))
+				s.Probe("truncated-stack-name")
+			}
 			stackSiteNames(key)
 			stackKeys = append(stackKeys, key)
 			p.stacks = append(p.stacks, p.f.VerifNewStack(key, 2))
@@ -252,15 +258,21 @@ func scenarioC03(c *hlib.RunCtx) *hlib.Violation {
 	}
 	if rotation {
 		weeks := 1 + t.Draw(3)
+		jumps := 1 + t.Biased(3, 2, 3) // mostly one rotation, sometimes two or three in a row
 		s.Spawn(p.p, "clock", func() {
-			simrt.Yield("clock:wait")
-			s.Advance(time.Duration(weeks) * 7 * 24 * time.Hour)
-			s.Probe("clock-jump")
-			if openMode != 2 {
-				// No timer armed: rotate the way Read and the timer do.
-				enterAdd()
-				p.f.VerifRotate1()
-				leaveAdd()
+			for j := 0; j < jumps; j++ {
+				simrt.Yield("clock:wait")
+				s.Advance(time.Duration(weeks) * 7 * 24 * time.Hour)
+				s.Probe("clock-jump")
+				if j > 0 {
+					s.Probe("second-rotation")
+				}
+				if openMode != 2 {
+					// No timer armed: rotate the way Read and the timer do.
+					enterAdd()
+					p.f.VerifRotate1()
+					leaveAdd()
+				}
 			}
 		})
 	}
